@@ -80,6 +80,9 @@ def obligation(item, N, live_regions):
     try:
         may = build_spec(sym, mode, ast, fi, relaxed=not exact, allow_abs_globstar=True, overrides=overrides)
         must = build_spec(sym, mode, ast, fi, relaxed=False) if exact else FALSE
+        if overrides.get('empty_segments') and mode == 'gl':
+            for variant in regions.nullable_segment_variants(ast):
+                may = OR(may, build_spec(sym, mode, variant, fi, relaxed=True, allow_abs_globstar=True, overrides=overrides))
     except Exception as ex:  # noqa: BLE001
         res['status'] = 'spec_error'
         res['exc'] = repr(ex)
